@@ -1,0 +1,142 @@
+/*! Observation hooks for external runtime monitors.
+
+This module only exists when the crate is built with the cargo feature
+`verif-hooks` (off by default). It does not change any result computed
+by the crate: it merely lets a monitor running in the same thread observe
+internal events (fixed-point searches, per-offset results, loop
+iterations, cache contents).
+
+All state is thread-local, so observers installed by one thread never see
+events of another thread.
+*/
+
+use std::cell::{Cell, RefCell};
+
+use crate::fixed_point::SearchResult;
+use crate::supply::SupplyBound;
+use crate::time::{Duration, Offset, Service};
+
+/// Panic payload used when the armed iteration budget is exhausted.
+#[derive(Debug, Clone, Copy)]
+pub struct FuelExhausted {
+    /// The loop head at which the budget ran out.
+    pub site: &'static str,
+}
+
+/// Everything observable about one finished fixed-point search.
+pub struct SearchEvent<'a> {
+    pub offset: Offset,
+    pub limit: Duration,
+    pub result: SearchResult,
+    /// The supply's `provided_service`.
+    pub provided_service: &'a dyn Fn(Duration) -> Service,
+    /// The supply's `service_time`.
+    pub service_time: &'a dyn Fn(Service) -> Duration,
+    /// The right-hand side (workload bound) the search was run on.
+    pub workload: &'a dyn Fn(Duration) -> Service,
+}
+
+type SearchObserver = Box<dyn FnMut(&SearchEvent)>;
+type ItemObserver = Box<dyn FnMut(&SearchResult)>;
+
+thread_local! {
+    static FUEL: Cell<Option<u64>> = const { Cell::new(None) };
+    static TICKS: Cell<u64> = const { Cell::new(0) };
+    static SEARCH_OBSERVER: RefCell<Option<SearchObserver>> = const { RefCell::new(None) };
+    static ITEM_OBSERVER: RefCell<Option<ItemObserver>> = const { RefCell::new(None) };
+}
+
+/// Arm (`Some(n)`) or disarm (`None`) the iteration budget of the
+/// current thread. While armed, the `n+1`-th call of [tick] panics
+/// with a [FuelExhausted] payload.
+pub fn set_fuel(fuel: Option<u64>) {
+    FUEL.with(|f| f.set(fuel));
+}
+
+/// Number of loop iterations observed in this thread so far.
+pub fn ticks() -> u64 {
+    TICKS.with(|t| t.get())
+}
+
+/// Called at instrumented loop heads.
+#[inline]
+pub fn tick(site: &'static str) {
+    TICKS.with(|t| t.set(t.get().wrapping_add(1)));
+    FUEL.with(|f| {
+        if let Some(left) = f.get() {
+            if left == 0 {
+                f.set(None);
+                std::panic::panic_any(FuelExhausted { site });
+            }
+            f.set(Some(left - 1));
+        }
+    });
+}
+
+/// Install (or remove) the observer of finished fixed-point searches.
+pub fn set_search_observer(obs: Option<SearchObserver>) -> Option<SearchObserver> {
+    SEARCH_OBSERVER.with(|o| std::mem::replace(&mut *o.borrow_mut(), obs))
+}
+
+/// Install (or remove) the observer of the per-offset results that
+/// are fed to `fixed_point::max_response_time`.
+pub fn set_item_observer(obs: Option<ItemObserver>) -> Option<ItemObserver> {
+    ITEM_OBSERVER.with(|o| std::mem::replace(&mut *o.borrow_mut(), obs))
+}
+
+/// Called by `fixed_point::search_with_offset` right before it returns.
+pub fn on_search_exit<SBF, RHS>(
+    supply: &SBF,
+    offset: Offset,
+    limit: Duration,
+    result: SearchResult,
+    workload: &RHS,
+) where
+    SBF: SupplyBound + ?Sized,
+    RHS: Fn(Duration) -> Service,
+{
+    // Take the observer out while it runs, so that searches triggered by
+    // the observer itself are not observed recursively.
+    let taken = SEARCH_OBSERVER.with(|o| o.borrow_mut().take());
+    if let Some(mut obs) = taken {
+        // The observer must not consume the armed budget.
+        let fuel = FUEL.with(|f| f.replace(None));
+        let ticks = TICKS.with(|t| t.get());
+        {
+            let ps = |d: Duration| supply.provided_service(d);
+            let st = |s: Service| supply.service_time(s);
+            let wl = |d: Duration| workload(d);
+            let ev = SearchEvent {
+                offset,
+                limit,
+                result,
+                provided_service: &ps,
+                service_time: &st,
+                workload: &wl,
+            };
+            obs(&ev);
+        }
+        TICKS.with(|t| t.set(ticks));
+        FUEL.with(|f| f.set(fuel));
+        SEARCH_OBSERVER.with(|o| {
+            let mut slot = o.borrow_mut();
+            if slot.is_none() {
+                *slot = Some(obs);
+            }
+        });
+    }
+}
+
+/// Called for every item pulled by `fixed_point::max_response_time`.
+pub fn on_max_item(item: &SearchResult) {
+    let taken = ITEM_OBSERVER.with(|o| o.borrow_mut().take());
+    if let Some(mut obs) = taken {
+        obs(item);
+        ITEM_OBSERVER.with(|o| {
+            let mut slot = o.borrow_mut();
+            if slot.is_none() {
+                *slot = Some(obs);
+            }
+        });
+    }
+}
